@@ -43,25 +43,32 @@ def main():
         r = sh("git", "-C", WT, "apply", os.path.join(dd, "patch.diff"))
         if r.returncode:
             results[n] = {"kind": kind, "status": "patch-does-not-apply"}; print(n, "PATCH DOES NOT APPLY"); continue
-        det, first, secs = [], "", 0
+        det, first, secs, ded, bnd = [], "", 0, [], 0
         for p in props:
             t = time.time()
             r = sh(os.path.join(OUT, "foxvc"), "check", "-repo", WT, "-prop", p, "-tier", "quick", "-fast", "-out", OUT, "-externs", os.path.join(OUT, "externs"))
             secs += time.time() - t
             failed = [l for l in r.stdout.splitlines() if l.startswith("FAILED")]
             viol = [l for l in r.stdout.splitlines() if l.startswith("VIOLATION")]
+            for l in failed:
+                if l.startswith("FAILED bounded"): bnd += 1
+                else: ded.append(l[len("FAILED obligation "):].split(" at ")[0][:160])
             if r.returncode == 1 and viol:
                 det.append(p)
-                if not first and failed: first = failed[0][:200]
+                # the most telling line first: a definite (non-timeout) obligation, then any obligation, then a stand-in
+                pref = [l for l in failed if l.startswith("FAILED obligation") and "(timeout)" not in l] or [l for l in failed if l.startswith("FAILED obligation")] or failed
+                if not first and pref: first = pref[0][:200]
             elif r.returncode not in (0, 1):
                 first = first or ("exit %d: %s" % (r.returncode, (r.stdout + r.stderr)[-200:]))
-        results[n] = {"kind": kind, "property": meta["property"], "checked": props, "detected_by": det, "first": first, "seconds": round(secs, 1)}
+        results[n] = {"kind": kind, "property": meta["property"], "checked": props, "detected_by": det, "first": first, "seconds": round(secs, 1), "obligations_failed": ded[:12], "n_obligations_failed": len(ded), "n_definite": len([x for x in ded if "(timeout)" not in x]), "n_standin_mismatches": bnd}
         if kind == "selftest/harmless":
             # behaviour-preserving edits: an alarm here is a false alarm
             results[n]["harmless"] = True
             print("%-34s %-8s %-10s %s" % (n, ",".join(props), "FALSE-ALARM" if det else "QUIET", first[:110]), flush=True)
             continue
-        print("%-34s %-8s %-10s %s" % (n, ",".join(props), "DETECTED" if det else "MISSED", first[:110]), flush=True)
+        how = "DETECTED" if det else "MISSED"
+        if det and not [x for x in ded if "(timeout)" not in x]: how = "DET-BOUNDED" if bnd else "DET-TIMEOUT"
+        print("%-34s %-8s %-11s %s" % (n, ",".join(props), how, first[:110]), flush=True)
     sh("git", "-C", "/repo", "worktree", "remove", "--force", WT)
     shutil.rmtree(OUT, ignore_errors=True)
     json.dump(results, open(resfile, "w"), indent=1, sort_keys=True)
